@@ -154,7 +154,9 @@ def specs(tier, rng):
             s = E.sample_sentence(G, rng, maxlen=6)
             if s is not None:
                 ins.add(s)
-        rnames = [r['name'] for r in G['rules'] if not r['name'].startswith('_')]
+        # callbacks named like INLINED _rules too (every third grammar): such a node never reaches a transformer, so the callback
+        # must not run - embedded neither (hunted defect 49)
+        rnames = [r['name'] for r in G['rules'] if i % 3 == 0 or not r['name'].startswith('_')]
         aliases = sorted({a['alias'] for r in G['rules'] for a in r['alts'] if a['alias']})
         cand = rnames + aliases
         names = [n for n in cand if rng.random() < 0.6]
